@@ -71,6 +71,8 @@ use tokio_util::sync::CancellationToken;
 
 #[cfg(not(windows))]
 pub use linux::BpfObject;
+#[cfg(all(not(windows), azure_guestproxyagent_verif))]
+pub use linux::verif_ebpf;
 #[cfg(windows)]
 pub use windows::BpfObject;
 
